@@ -61,6 +61,7 @@ type normalizer struct {
 	hasDefer    map[*ast.FuncDecl]bool
 	varDef      map[types.Object]ast.Expr        // local variable defined once by this expression
 	varBad      map[types.Object]bool            // reassigned / address taken / unknown definition
+	present     map[string]bool                  // the functions the tree has, by reference-tree key
 	curTypeText func(types.Type) (string, bool)  // renders a type at the site being inlined (set around bodyText)
 	varAssign   map[types.Object]*ast.AssignStmt // for `var x T; x = e`: the single assignment
 	varDefNode  map[types.Object]ast.Node        // the `x := e` statement that defines a local
@@ -335,6 +336,7 @@ func (n *normalizer) classify() {
 			present[funcKeyOf(fn)] = true
 		}
 	}
+	n.present = present
 	var valueUsed map[*types.Func]bool
 	for fn, fd := range n.decls {
 		key := funcKeyOf(fn)
@@ -383,8 +385,10 @@ func (n *normalizer) inlinable(fn *types.Func, fd *ast.FuncDecl) bool {
 	if fn != nil && n.wrapEntryLike(fn, fd) {
 		return false // a new error-wrapper entry point: kept as a function and recognised by its summary (wrapInfoOf)
 	}
-	if fn != nil && requestCtxLike(fn) {
-		return false // derives the context of one request (requestContext's role): the unit the timeout rules anchor in
+	if fn != nil && requestCtxLike(fn) && !n.present["RetryClient.requestContext"] {
+		// derives the context of one request: with the reference tree's requestContext gone, this is the unit the timeout
+		// rules anchor in (while requestContext is still there, a function of this shape is one of its helpers)
+		return false
 	}
 	if fn != nil && packetReadLike(fn) {
 		return false // the function that reads one packet off the transport: the unit the serve model and the codec rules anchor in
